@@ -33,7 +33,7 @@ type c18F struct {
 }
 
 var c18Kinds = []string{"generic", "not-found", "inactive", "serialization"}
-var c18Flows = []string{"code", "code-oidc", "code-pkce", "refresh", "refresh-oidc", "refresh-reuse", "device", "device-oidc", "authorize-code", "implicit", "hybrid", "client_credentials", "password", "jwt-bearer", "client-assertion", "revocation", "par-push", "par-use", "code-replay"}
+var c18Flows = []string{"code", "code-oidc", "code-pkce", "code-pkce-noverifier", "refresh", "refresh-oidc", "refresh-reuse", "device", "device-oidc", "authorize-code", "implicit", "hybrid", "client_credentials", "password", "jwt-bearer", "client-assertion", "revocation", "par-push", "par-use", "code-replay"}
 
 const c18Marker = "STORAGEMARKER pq: password authentication failed for user hydra (host=10.42.7.13)"
 
@@ -105,6 +105,13 @@ func c18Setup(w *World, flow string) *c18Plan {
 		if flow == "code-replay" {
 			p.attacks = append(p.attacks, tok(f, authA))
 		}
+	case "code-pkce-noverifier":
+		// the target itself is an attack: a challenge-bound code presented without verifier must be refused
+		// whatever the store does meanwhile
+		code := authz("P", "code", "offline a", url.Values{"code_challenge": {s256(pkceV0)}, "code_challenge_method": {"S256"}}).Param("code")
+		f := url.Values{"grant_type": {"authorization_code"}, "code": {code}, "redirect_uri": {"https://P.example/cb"}}
+		p.target = tok(f, w.AuthFor("P"))
+		p.attacks = []func() *Obs{tok(f, w.AuthFor("P"))}
 	case "code-pkce":
 		code := authz("P", "code", "offline a", url.Values{"code_challenge": {s256(pkceV0)}, "code_challenge_method": {"S256"}}).Param("code")
 		f := url.Values{"grant_type": {"authorization_code"}, "code": {code}, "redirect_uri": {"https://P.example/cb"}, "code_verifier": {pkceV0}}
